@@ -241,6 +241,12 @@ func (un *Unit) callStatic(fr *Frame, st *State, callee *ssa.Function, binds []V
 		return v
 	}
 	fc := un.lookupFuncContract(callee)
+	if fc != nil {
+		if _, noFrame := fc.Opts["no-frame"]; noFrame {
+			// an entry-point contract without a checked frame is never assumed at call sites
+			fc = nil
+		}
+	}
 	if fc != nil && !fc.Inline {
 		names := paramNames(callee, sig, fc)
 		if fc.Trusted || !un.prog.isRepoFunc(callee) {
